@@ -121,7 +121,7 @@ def piOps : String → Option (List String → String)
   | "pi64" => some fun a => match a with | [x] => piBatch ["pi64", x] | _ => "ERR:proto"
   | "pi128" => some fun a => match a with | [x] => piBatch ["pi128", x] | _ => "ERR:proto"
   | "cpi" => some fun a => match a with | [x] => piBatch ["cpi", x] | _ => "ERR:proto"
-  | "pistr" => some fun a => match a with
+  | "pi_pistr" => some fun a => match a with
       | [h] => match unhexStr h with | some s => piBatch ["pistr", s] | none => "ERR:proto"
       | _ => "ERR:proto"
   | "pi_cpistr" => some fun a => match a with
